@@ -561,7 +561,7 @@ def monitor_violation(ctx, res, what):
     return False
 
 
-def suite_object(ctx, maxhist, faults, small, backend="idn2", wrap=True, graph=True, pool=None, valgrind_n=0):
+def suite_object(ctx, maxhist, faults, small, backend="idn2", wrap=True, graph=True, pool=None, valgrind_n=0, variant="default"):
     pool = pool or POOL
     poolvec = make_env(ctx, pool)
     if graph:   # the whole state graph: histories of every length
@@ -575,8 +575,8 @@ def suite_object(ctx, maxhist, faults, small, backend="idn2", wrap=True, graph=T
             for line in open(r["out"], errors="replace"):
                 if line.startswith('"[7,'):
                     f.write(line)
-        b = build(ctx, "default", 0, backend)
-        res = replay(ctx, b, vec, "hist-%d" % maxhist, wrap=wrap)
+        b = build(ctx, variant, 0, backend)
+        res = replay(ctx, b, vec, "hist-%d-%s" % (maxhist, variant), wrap=wrap)
         crash_violation(ctx, res, ["C06", ctx.prop])
         for v in res["viol"]:
             classify_history(ctx, v, backend)
@@ -747,6 +747,8 @@ def c06(ctx):
                     add_violation(ctx, "C06", "result depends on bytes outside the string", v)
     # (2) lifecycle: object model (defined fields, heap balance) + histories under --wrap accounting and valgrind
     suite_object(ctx, 5 if q else 6, faults=True, small=True, valgrind_n=300 if q else 3000)
+    # the EAV_EXTRA build allocates two more strings per accepted address: same histories, same accounting
+    suite_object(ctx, 4 if q else 5, faults=True, small=True, graph=False, variant="extra")
     # (3) linear work: instruction counts at n, 2n, 4n for adversarial shapes
     suite_scaling(ctx)
     return finish(ctx, "model_checking",
